@@ -17,7 +17,7 @@ def files(n):
     return ', '.join(sorted(set(re.findall(r'^\+\+\+ b/(\S+)', open(p).read(), re.M))))
 def rnd(n):
     prop, m = n.split('-m'); m=int(m)
-    if n in ('C14-m6','C14-m7','C14-m8'): return '5 (held-out, last session, after R-OVF was final)'
+    if n in ('C14-m6','C14-m7','C14-m8'): return '5 (last session; m7, m8 held-out, m6 trained-on)'
     if n in ('C12-m7','C12-m8','C13-m7','C13-m8','C14-m4','C14-m5','C19-m7','C19-m8'): return '4 (held-out, last session)'
     if m>=4: return '3 (held-out)'
     return '1' if prop in ('C01','C02','C03','C04','C06','C08','C09','C12','C13','C18','C19','C20') else '2'
